@@ -15,6 +15,7 @@ mod ops;
 mod oracle;
 mod rng;
 mod seq;
+mod special;
 mod sut;
 mod unit;
 
@@ -220,6 +221,11 @@ fn main() {
     let _ = REPLAY_DIR.set(args.replay_dir.clone());
     let rep = match args.cmd.as_str() {
         "seq" => seq::run(&args),
+        "init" => special::run_init(&args),
+        "single" => special::run_single(&args),
+        "handoff" => special::run_handoff(&args),
+        "invalid" => special::run_invalid(&args),
+        "wrappers" => special::run_wrappers(&args),
         "row" => unit::run_row(&args),
         "sort" => unit::run_sort(&args),
         "lower" => unit::run_lower(&args),
